@@ -55,6 +55,9 @@ type Term struct {
 	name    string
 	id      uint32
 	depth   uint32
+	sv      *Term // the single variable occurring in the term (nil if none or several)
+	mv      bool  // more than one distinct variable occurs
+	size    uint32
 }
 
 type termKey struct {
@@ -103,6 +106,31 @@ func (tt *TermTable) mk(op Op, w uint8, a, b, c *Term, val uint64, name string) 
 		}
 	}
 	t := &Term{op: op, w: w, a: a, b: b, c: c, val: val, name: name, id: tt.next, depth: d}
+	if op == OpVar {
+		t.sv = t
+	}
+	t.size = 1
+	for _, x := range []*Term{a, b, c} {
+		if x == nil {
+			continue
+		}
+		t.size += x.size
+		if x.mv {
+			t.mv = true
+		} else if x.sv != nil {
+			if t.sv == nil {
+				t.sv = x.sv
+			} else if t.sv != x.sv {
+				t.mv = true
+			}
+		}
+	}
+	if t.mv {
+		t.sv = nil
+	}
+	if t.size > 1<<20 {
+		t.size = 1 << 20
+	}
 	tt.next++
 	tt.m[k] = t
 	return t
